@@ -1,4 +1,5 @@
 import XdsVerif.Proofs.Conc
+import XdsVerif.Proofs.Sys
 import XdsVerif.Generated.Facts
 /-!
 # C06 — no lost wake-ups: a resource accepted before the deadline is returned
@@ -14,6 +15,9 @@ open XdsVerif.Conc
 abbrev V : Variant := Generated.getVariant
 
 theorem facts_get : V = expectedVariant := by decide
+
+/-- bridge: the bodies of `Get`, `getFromCache`, `notifier.notify` are the ones the model mirrors (see C05) -/
+theorem facts_get_body : Generated.getFingerprint = expectedGetFingerprint := by decide
 
 /-- **WaitInv** for every reachable state: a thread that waits on an open notifier is reachable from the notifier
 table under its own name, and the resource it waits for is not in the cache -/
@@ -96,6 +100,46 @@ theorem timeout_is_private (tn : Nat → Name) (ls : List Lbl) (s s1 s2 : S) (h 
     cases h2
     split <;> rfl
   refine ⟨hpc2, hI2.wait i nf hpc2 (by rw [hcl2, hcl1]; exact ho)⟩
+
+
+/-! ### the same guarantee against the real response handling (`Model/Sys.lean`)
+
+In the composed system a delivery is the third lock section of a response handler (`UpdateResource`), applied to
+the update map the handler's interest filter produced; the lookups run against the client's own cache while
+acknowledgements, the sender, other lookups' `Watch` calls and the cleaner interleave at section granularity. -/
+
+/-- **no lost wake-up, end to end**: in any reachable state of the composed system — receiver sections torn apart
+by other goroutines or not — if a lookup waits on an open notifier and the response being handled carries its name
+past the interest filter, then `UpdateResource` closes the notifier in that very section, the lookup's wake-up step
+is enabled, and the client's cache holds the delivered content -/
+theorem sys_no_lost_wakeup (cfg : Seq.Cfg) (T : Seq.RType) (tn : Nat → Name) (ls : List Sys.Lbl) (s : Sys.St)
+    (e : Sys.Emit) (h : Sys.run cfg V T tn Sys.init ls = some (s, e))
+    (i nf : Nat) (hw : s.conc.pc i = .waiting nf) (ho : s.conc.closed nf = false)
+    (r : Seq.Resp) (items : List (Name × Val)) (now : Nat)
+    (hin : s.inflight = some { r := r, items := some items }) (hrt : r.rt = T)
+    (hmem : tn i ∈ items.map Prod.fst) :
+    ∃ s' e', Sys.step cfg V T tn s (.recvApply now) = some (s', e') ∧
+      s'.conc.pc i = .waiting nf ∧ s'.conc.closed nf = true ∧
+      (∃ s'' e'', Sys.step cfg V T tn s' (.getWake i) = some (s'', e'') ∧ s''.conc.pc i = .woken) ∧
+      s'.seq.cache T (tn i) = lookupL items (tn i) ∧ (lookupL items (tn i)).isSome = true := by
+  have hreach := Sys.run_conc cfg V T tn ls Sys.init s e h
+  have hC := Sys.coupled_run cfg V T tn ls Sys.init s e (Sys.coupled_init T) h
+  -- the third section is always enabled and is a `deliver` of the filtered map on the lookup side
+  have hdel : ∃ c', Conc.cstep V tn s.conc (.deliver (Seq.isFull T) items) = some c' := ⟨_, rfl⟩
+  obtain ⟨c', hc'⟩ := hdel
+  have hstep : Sys.step cfg V T tn s (.recvApply now) =
+      some ({ seq := Seq.applyUpdate s.seq r.rt (lookupL items) (if cfg.metaInitNow then some now else none),
+              conc := c', inflight := none }, { conc := [.deliver (Seq.isFull T) items] }) := by
+    simp only [Sys.step, Sys.doApply, hin, hrt, if_true, hc', Option.map_some]
+  obtain ⟨h1, h2, ⟨c'', hw1, hw2⟩, h4, h5⟩ :=
+    no_lost_wakeup tn e.conc s.conc c' hreach i nf (Seq.isFull T) items hw ho hmem hc'
+  refine ⟨_, _, hstep, h1, h2, ?_, ?_, h5⟩
+  · refine ⟨{ seq := Seq.applyUpdate s.seq r.rt (lookupL items) (if cfg.metaInitNow then some now else none),
+              conc := c'', inflight := none }, { conc := [.getWake i] }, ?_, hw2⟩
+    simp only [Sys.step, hw1]
+  · have hC' := Sys.coupled_step cfg V T tn s _ (.recvApply now) _ hC hstep (tn i)
+    rw [← hC']
+    exact h4
 
 /-! ### the shape before the repairs loses wake-ups (kept as documentation; `decide`-checked schedules) -/
 
